@@ -1263,6 +1263,10 @@ def manager_keys_not_derived(ctx, rule, floor=10):
         # one keyed lookup per table per method call would be too strict; but a *fallback* lookup chain is the tell-tale
         ors = [c for x in bodies for c in x.calls_to(r"Option::<.*>::(or_else|or|xor)$")]
         R.check(not ors, rule, "%s:no-fallback-lookup" % fkey(b), "%s has no fallback lookup" % short(b.path), "%s chains a second lookup after a miss (%s)" % (short(b.path), sorted({short(c.name()) for c in ors})), where(ors[0]) if ors else None)
+        # ... and no method picks an entry by searching the table (oldest batch, first pending call, ...): an entry is
+        # reached through the id the caller supplies, or not at all
+        scans = [c for x in bodies for c in x.calls_to(r"(HashMap|BTreeMap)::<.*>::(keys|iter|values|iter_mut|values_mut|drain|retain|into_iter|into_keys|into_values|extract_if)$|Iterator>?::(min_by_key|max_by_key|min_by|max_by|find|find_map|min|max|last|nth|position)$")]
+        R.check(not scans, rule, "%s:no-table-scan" % fkey(b), "%s reaches entries by key only" % short(b.path), "%s selects an entry by scanning a table (%s) instead of by the id of the message at hand: an answer that carries no usable id is attributed to whichever entry the scan picks - another call's or batch's slots are filled with it" % (short(b.path), sorted({short(c.name()) for c in scans})), where(scans[0]) if scans else None)
     R.floor(rule, n, floor, "keyed table operations in RequestManager")
 
 
